@@ -407,7 +407,9 @@ func ChildCrash(specPath string) int {
 		return 4
 	}
 	keys := crashKeys(s.Seed)
-	var wg, gcwg sync.WaitGroup
+	var wg, gcwg, barrier1 sync.WaitGroup
+	barrier1.Add(s.Clients)
+	barrier2 := make(chan struct{})
 	stop := make(chan struct{})
 	for cl := 0; cl < s.Clients; cl++ {
 		wg.Add(1)
@@ -415,6 +417,21 @@ func ChildCrash(specPath string) int {
 			defer wg.Done()
 			id := goid()
 			for seq := 0; seq < s.Txns; seq++ {
+				if s.Family == "dropall" && seq == s.Txns/2 {
+					// phase A ends: all clients meet, client 0 runs DropAll, phase B starts
+					barrier1.Done()
+					barrier1.Wait()
+					if cl == 0 {
+						sl.line("DS all")
+						if err := db.DropAll(); err == nil {
+							sl.line("DE all ok")
+						} else {
+							sl.line("DE all err %v", err)
+						}
+						close(barrier2)
+					}
+					<-barrier2
+				}
 				ops := crashTxn(&s, keys, cl, seq)
 				tag := fmt.Sprintf("%d %d", cl, seq)
 				if isBatchClient(&s, cl) {
@@ -633,7 +650,7 @@ func parseSideLog(path string) *sideInfo {
 		case "DS":
 			if len(f) >= 2 {
 				p, _ := hex.DecodeString(f[1])
-				si.drops = append(si.drops, dropRec{prefix: p, start: line})
+				si.drops = append(si.drops, dropRec{prefix: p, start: line, all: f[1] == "all"})
 			}
 		case "DE":
 			if n := len(si.drops); n > 0 && len(f) >= 3 {
@@ -702,6 +719,7 @@ type dropRec struct {
 	prefix     []byte
 	start, end int // line positions; end = 0 when the call never returned (crash inside the drop)
 	ok         bool
+	all        bool // DropAll
 }
 
 type crashSeqNum struct {
@@ -951,6 +969,33 @@ func verifyRecoveredOpts(c *core.Ctx, sig string, s *CrashSpec, specPath string,
 		c.Violation(sig+"|"+p.Sig, p.What, w(nil))
 	}
 	keys := crashKeys(s.Seed)
+	// DropAll in the workload (family dropall: phase A, DropAll, phase B)
+	var da *dropRec
+	for i := range si.drops {
+		if si.drops[i].all {
+			da = &si.drops[i]
+		}
+	}
+	preDrop := map[string]bool{}
+	if da != nil {
+		for id, p := range si.iPos {
+			if p < da.start {
+				preDrop[id] = true
+			}
+		}
+		if da.end == 0 || !da.ok {
+			verifyInsideDropAll(c, sig, s, si, &d, keys, preDrop, w)
+			return true
+		}
+		c.Count("crash.dropall_completed_cases", 1)
+		a2 := map[string]bool{}
+		for id := range acked {
+			if !preDrop[id] {
+				a2[id] = true
+			}
+		}
+		acked = a2
+	}
 	// S = transactions whose marker is visible
 	type member struct {
 		id     string
@@ -969,6 +1014,10 @@ func verifyRecoveredOpts(c *core.Ctx, sig string, s *CrashSpec, specPath string,
 			continue
 		}
 		id := fmt.Sprintf("%d %d", cl, sq)
+		if preDrop[id] {
+			c.Violation(sig+"|dropall|pre-drop-commit-visible", fmt.Sprintf("transaction %s was committed before DropAll was called and DropAll returned, but its marker is visible", id), w(map[string]any{"txn": id}))
+			continue
+		}
 		S = append(S, member{id, cl, sq, it.Ver})
 		inS[id] = true
 		if !si.issued[id] {
@@ -1033,7 +1082,7 @@ func verifyRecoveredOpts(c *core.Ctx, sig string, s *CrashSpec, specPath string,
 		}
 	}
 	for id, ts := range si.ts {
-		if !inS[id] && ts < maxTs && si.rejected[id] == "" {
+		if !inS[id] && ts < maxTs && si.rejected[id] == "" && !preDrop[id] {
 			c.Violation(sig+"|not-a-commit-order-prefix", fmt.Sprintf("transaction %s (commit ts %d) is lost although %s (commit ts %d) survived", id, ts, maxID, maxTs), w(map[string]any{"lost": id, "lost_ts": ts, "survivor": maxID, "survivor_ts": maxTs}))
 			break
 		}
@@ -1058,7 +1107,7 @@ func verifyRecoveredOpts(c *core.Ctx, sig string, s *CrashSpec, specPath string,
 	dropState := func(k []byte, writer string) string {
 		st := ""
 		for _, dr := range si.drops {
-			if !bytes.HasPrefix(k, dr.prefix) {
+			if dr.all || !bytes.HasPrefix(k, dr.prefix) {
 				continue
 			}
 			ip, ap := si.iPos[writer], si.aPos[writer]
@@ -1167,6 +1216,10 @@ func verifyRecoveredOpts(c *core.Ctx, sig string, s *CrashSpec, specPath string,
 					}
 				}
 			}
+			if present > 0 && preDrop[id] {
+				c.Violation(sig+"|dropall|pre-drop-batch-visible", fmt.Sprintf("WriteBatch %s was written before a completed DropAll, %d entries are visible", id, present), w(nil))
+				continue
+			}
 			if present > 0 && !si.issued[id] {
 				c.Violation(sig+"|batch|unissued", "entries of a batch that was never started are visible: "+id, w(nil))
 			}
@@ -1217,4 +1270,67 @@ func listDir(dir string) []string {
 		}
 	}
 	return out
+}
+
+// verifyInsideDropAll: the process died inside DropAll. Every key holds its pre-drop value or is absent.
+func verifyInsideDropAll(c *core.Ctx, sig string, s *CrashSpec, si *sideInfo, d *VerifyDump, keys [][]byte, preDrop map[string]bool, w func(map[string]any) map[string]any) {
+	c.Count("crash.dropall_killed_inside_cases", 1)
+	type wr struct {
+		tok  string
+		size int
+		del  bool
+		ts   uint64
+		id   string
+	}
+	type txn struct {
+		id     string
+		cl, sq int
+		ts     uint64
+	}
+	var A []txn
+	for id := range preDrop {
+		var cl, sq int
+		fmt.Sscanf(id, "%d %d", &cl, &sq)
+		if isBatchClient(s, cl) || si.rejected[id] != "" {
+			continue
+		}
+		A = append(A, txn{id, cl, sq, si.ts[id]})
+	}
+	sort.Slice(A, func(i, j int) bool { return A[i].ts < A[j].ts })
+	model := map[string]wr{}
+	for _, t := range A {
+		for _, o := range crashTxn(s, keys, t.cl, t.sq) {
+			model[hex.EncodeToString(o.Key)] = wr{o.Tok, o.Size, o.Del, t.ts, t.id}
+		}
+	}
+	for _, k := range keys {
+		hk := hex.EncodeToString(k)
+		it, got := d.Items[hk]
+		if !got {
+			continue
+		}
+		c.Count("crash.dropall_surviving_keys_checked", 1)
+		m, has := model[hk]
+		if !has || m.del || it.Err != "" || it.Tok != m.tok || it.Len != m.size || !it.OK || it.Ver != m.ts {
+			c.Violation(sig+"|dropall|key-neither-pre-drop-value-nor-absent", fmt.Sprintf("key %s after a crash inside DropAll: database returns %s (len %d, version %d, err %q), pre-drop value is %s (len %d, ts %d, deleted=%v)", hk, it.Tok, it.Len, it.Ver, it.Err, m.tok, m.size, m.ts, m.del), w(map[string]any{"key": hk}))
+		}
+	}
+	for hk, it := range d.Items {
+		k, _ := hex.DecodeString(hk)
+		switch {
+		case bytes.HasPrefix(k, []byte("m!")):
+			var cl, sq int
+			if _, err := fmt.Sscanf(string(k), "m!%d/%d", &cl, &sq); err == nil && string(k) != "m!probe" && !preDrop[fmt.Sprintf("%d %d", cl, sq)] {
+				c.Violation(sig+"|dropall|marker-of-unissued-commit", "marker of a transaction that was not committed before DropAll: "+string(k), w(nil))
+			}
+		case bytes.HasPrefix(k, []byte("w!")):
+			var cl, sq, j int
+			if _, err := fmt.Sscanf(string(k), "w!%d/%d/%d", &cl, &sq, &j); err == nil {
+				ops := crashTxn(s, keys, cl, sq)
+				if j >= len(ops) || it.Err != "" || it.Tok != ops[j].Tok || it.Len != ops[j].Size || !it.OK {
+					c.Violation(sig+"|dropall|batch-value-differs", "batch entry "+string(k)+" differs from what was written", w(nil))
+				}
+			}
+		}
+	}
 }
